@@ -241,6 +241,7 @@ int wrapped_main (int argc, char *argv[])
   // files is just a way to manage the lifetime of the image file objects such
   // that they live longer than the StorageConfiguration.
   std::vector<std::unique_ptr<DFS::AbstractImageFile>> files;
+  std::vector<std::string> image_file_names;
   DFS::StorageConfiguration storage; // must be declared after files.
   bool show_config = false;
   DFS::DriveAllocation how_to_allocate_drives(DFS::DriveAllocation::PHYSICAL);
@@ -269,6 +270,7 @@ int wrapped_main (int argc, char *argv[])
 		  return 1;
 		}
 	      files.push_back(std::move(file));
+	      image_file_names.push_back(optarg);
 	    }
 	  catch (std::exception& e)
 	    {
@@ -339,6 +341,7 @@ int wrapped_main (int argc, char *argv[])
       std::cerr << "Please specify a command (try \"help\")\n";
       return 1;
     }
+  ctx.image_file_names = image_file_names;
   const std::string cmd_name = argv[optind];
   if (optind < argc)
     extra_args.assign(&argv[optind], &argv[argc]);
